@@ -160,19 +160,26 @@ impl Workspace {
         let created_at_ms = now_ms();
         let checkpoint_root = self.checkpoints_dir.join(session_id).join(&checkpoint_id);
         let files_root = checkpoint_root.join("files");
+
+        // Resolve every path against the workspace root before touching the store, so a
+        // refused request leaves nothing behind.
+        let mut resolved = Vec::with_capacity(files.len());
+        for path in files {
+            resolved.push(self.to_relative(path)?);
+        }
         fs::create_dir_all(&files_root)?;
 
         let mut entries = Vec::new();
 
-        for path in files {
-            let rel = self.to_relative(path)?;
+        for rel in resolved {
+            let path = self.root.join(&rel);
             let dest = files_root.join(&rel);
 
             if path.exists() {
                 if let Some(parent) = dest.parent() {
                     fs::create_dir_all(parent)?;
                 }
-                let bytes = fs::read(path)?;
+                let bytes = fs::read(&path)?;
                 let hash = hash_bytes(&bytes);
                 fs::write(&dest, &bytes)?;
                 entries.push(CheckpointFile {
@@ -237,7 +244,7 @@ impl Workspace {
         let mut undo = BTreeMap::new();
 
         for file in &checkpoint.files {
-            let target_path = self.root.join(&file.path);
+            let target_path = self.safe_join(Path::new(&file.path))?;
             if target_path.exists() {
                 let bytes = fs::read(&target_path)?;
                 undo.insert(file.path.clone(), Some(bytes));
@@ -248,7 +255,7 @@ impl Workspace {
 
         let apply_result = (|| -> io::Result<()> {
             for file in &checkpoint.files {
-                let target_path = self.root.join(&file.path);
+                let target_path = self.safe_join(Path::new(&file.path))?;
                 if file.exists {
                     let source_path = checkpoint_root.join("files").join(&file.path);
                     let bytes = fs::read(&source_path)?;
@@ -285,6 +292,15 @@ impl Workspace {
     }
 
     fn to_relative(&self, path: &Path) -> io::Result<PathBuf> {
+        if path
+            .components()
+            .any(|component| matches!(component, Component::ParentDir))
+        {
+            return Err(io::Error::new(
+                io::ErrorKind::InvalidInput,
+                "path escapes workspace root",
+            ));
+        }
         let abs = if path.is_absolute() {
             path.to_path_buf()
         } else {
